@@ -303,6 +303,7 @@ func checkC05(w *World, r *Run) {
 	}
 	checkRangeOverlapTests(w, r)
 	checkSkipIsRelative(w, r)
+	checkS3ClientForwardsSuffixRanges(w, r)
 	checkSeekableReadersTrackOffset(w, r)
 	r.NotCovered("the bytes delivered (the per-part skip/limit arithmetic of createRangeReader and the seekable decryption offsets are value-level); Content-Range text formatting; syntactically invalid Range headers (answered 416 where RFC 7233 suggests ignoring the header)")
 }
